@@ -555,7 +555,7 @@ func main() {
 		var keep []*inst
 		for _, in := range insts {
 			k := in.av.String()
-			if !first[k] || always(in) && rnd.Intn(100) < 70 || rnd.Intn(100) < 12 {
+			if !first[k] || always(in) && rnd.Intn(100) < 45 || rnd.Intn(100) < 8 {
 				keep = append(keep, in)
 			}
 			first[k] = true
